@@ -1,3 +1,714 @@
-"""placeholder; replaced below"""
-if __name__ == '__main__':
+"""py2lean: regenerate Lean definitions from /repo's Python source (expression-level code only).
+
+Run on every check (`python -m translator.py2lean`).  Output: lean/Ndt/Gen/*.lean, rewritten only when the
+content changes, and lean/Ndt/Gen/status.json with one entry per translated function:
+  {"ok": true}                    translated from the current source
+  {"ok": false, "error": "..."}   construct not supported -> the *baseline* text (translator/baseline.json,
+                                  produced from the pinned tree) is emitted instead so that the project still
+                                  builds, and the check records the obligation `translate:<fn>` as broken.
+
+Supported subset (fails closed on anything else): int/bool/float/str constants, names, self.<attr>,
++ - * // % ** (nat exponent), comparisons (also chained), and/or/not, `a if c else b`, `x in (..)`,
+`s.startswith('..')`, `int(b)`, `max`, `min`, `dict(k=v,..).get(key, default)`, `{k: v}.get(key, default)`,
+`[..][i]`, local assignments, `if/return` chains, tuple unpack of `self._state`, `_assert(cond, msg)`
+statements (emitted as separate guard predicates with their path condition).
+
+Method names form the closed enumeration `Method`; string predicates are evaluated on it by the translator
+and emitted as `match` tables (String.startsWith does not reduce in proofs).
+"""
+from __future__ import annotations
+import ast
+import json
+import os
+import sys
+
+HERE = os.path.dirname(os.path.abspath(__file__))
+VERIF = os.path.dirname(HERE)
+REPO = os.environ.get('VERIF_REPO', '/repo')
+GEN = os.path.join(VERIF, 'lean', 'Ndt', 'Gen')
+METHODS = ['central', 'central2', 'forward', 'backward', 'complex', 'multicomplex']
+# string constants that are not method names: name fragments of difference functions
+FRAGS = {'_even': '.even', '_odd': '.odd', '2': '.two', '': '.none', '_higher': '.higher'}
+LT = {'nat': 'Nat', 'bool': 'Bool', 'meth': 'Method', 'rat': 'Rat', 'frag': 'Frag', 'int': 'Int',
+      'optnat': 'Option Nat', 'optrat': 'Option Rat'}
+
+
+class Unsupported(Exception):
     pass
+
+
+def lit_rat(v):
+    from fractions import Fraction
+    s = repr(float(v))
+    if 'e' in s or 'E' in s or 'inf' in s or 'nan' in s:
+        raise Unsupported('float literal %r' % v)
+    return '(%s : Rat)' % s
+
+
+class Tr:
+    """expression translator: e(node) -> (lean_text, type)"""
+
+    def __init__(self, env, selfattrs, resolve_call):
+        self.env = dict(env)
+        self.selfattrs = selfattrs        # attr -> (lean, type)
+        self.resolve_call = resolve_call  # name -> (lean_name, ret_type, [argtypes]) for self.method()/functions
+        self.guards = []                  # (path, cond) lean bool texts
+        self.path = []
+
+    def meth_table(self, key, fn, typ=None):
+        alts = ' '.join('| .%s => %s' % (m, fn(m)) for m in METHODS)
+        return '(match %s with %s | .other => %s)' % (key, alts, fn('?other'))
+
+    def coerce(self, x, t, want):
+        if t == want:
+            return x
+        if want == 'nat' and t == 'bool':
+            return '(if %s then 1 else 0)' % x
+        if want == 'rat' and t == 'nat':
+            return '((%s : Nat) : Rat)' % x
+        if want == 'rat' and t == 'bool':
+            return '((if %s then 1 else 0 : Nat) : Rat)' % x
+        if want == 'bool' and t == 'nat':
+            return '(decide (%s ≠ 0))' % x
+        raise Unsupported('cannot coerce %s to %s' % (t, want))
+
+    def e(self, n):
+        if isinstance(n, ast.Constant):
+            v = n.value
+            if isinstance(v, bool):
+                return ('true' if v else 'false', 'bool')
+            if isinstance(v, int):
+                return (str(v), 'nat')
+            if isinstance(v, float):
+                return (lit_rat(v), 'rat')
+            if isinstance(v, str):
+                if v in METHODS:
+                    return ('Method.%s' % v, 'meth')
+                if v in FRAGS:
+                    return ('Frag%s' % FRAGS[v], 'frag')
+                raise Unsupported('string constant %r' % v)
+            if v is None:
+                return ('none', 'none')
+        if isinstance(n, ast.Name):
+            if n.id in self.env:
+                return self.env[n.id]
+            raise Unsupported('name %s' % n.id)
+        if isinstance(n, ast.Attribute) and isinstance(n.value, ast.Name) and n.value.id == 'self':
+            if n.attr in self.selfattrs:
+                return self.selfattrs[n.attr]
+            r = self.resolve_call(n.attr)
+            if r is not None and r[2] == []:
+                return ('self.%s' % r[0], r[1])
+            raise Unsupported('self.%s' % n.attr)
+        if isinstance(n, ast.Attribute) and isinstance(n.value, ast.Attribute) and \
+                isinstance(n.value.value, ast.Name) and n.value.value.id == 'self' and n.value.attr == '_state':
+            if n.attr in ('n', 'order', 'method'):
+                return self.selfattrs['state.' + n.attr]
+        if isinstance(n, ast.UnaryOp) and isinstance(n.op, ast.Not):
+            x, t = self.e(n.operand)
+            return ('(!%s)' % self.coerce(x, t, 'bool'), 'bool')
+        if isinstance(n, ast.BinOp):
+            l, lt = self.e(n.left)
+            r, rt = self.e(n.right)
+            if isinstance(n.op, ast.Pow):
+                if rt != 'nat':
+                    raise Unsupported('non-natural exponent')
+                if lt == 'rat':
+                    return ('(ratPow %s %s)' % (l, r), 'rat')
+                return ('(%s ^ %s)' % (self.coerce(l, lt, 'nat'), r), 'nat')
+            if 'rat' in (lt, rt):
+                ops = {ast.Add: '+', ast.Mult: '*', ast.Sub: '-', ast.Div: '/'}
+                if type(n.op) not in ops:
+                    raise Unsupported('rat op')
+                return ('(%s %s %s)' % (self.coerce(l, lt, 'rat'), ops[type(n.op)], self.coerce(r, rt, 'rat')), 'rat')
+            ops = {ast.Add: '+', ast.Mult: '*', ast.Mod: '%', ast.FloorDiv: '/', ast.Sub: '-'}
+            if type(n.op) not in ops:
+                raise Unsupported('binop %s' % type(n.op).__name__)
+            return ('(%s %s %s)' % (self.coerce(l, lt, 'nat'), ops[type(n.op)], self.coerce(r, rt, 'nat')), 'nat')
+        if isinstance(n, ast.Compare):
+            parts = []
+            left = n.left
+            for op, c in zip(n.ops, n.comparators):
+                parts.append(self.cmp(left, op, c))
+                left = c
+            return (parts[0] if len(parts) == 1 else '(' + ' && '.join(parts) + ')', 'bool')
+        if isinstance(n, ast.BoolOp):
+            parts = [self.coerce(*self.e(v), 'bool') for v in n.values]
+            return ('(' + (' && ' if isinstance(n.op, ast.And) else ' || ').join(parts) + ')', 'bool')
+        if isinstance(n, ast.IfExp):
+            c = self.coerce(*self.e(n.test), 'bool')
+            a, at = self.e(n.body)
+            b, bt = self.e(n.orelse)
+            t = at if at == bt else ('rat' if 'rat' in (at, bt) else 'nat')
+            return ('(if %s then %s else %s)' % (c, self.coerce(a, at, t), self.coerce(b, bt, t)), t)
+        if isinstance(n, ast.Subscript) and isinstance(n.value, ast.List):
+            elts = [self.e(x) for x in n.value.elts]
+            t = 'rat' if any(tt == 'rat' for _x, tt in elts) else elts[0][1]
+            idx, it = self.e(n.slice)
+            zero = {'rat': '0', 'nat': '0'}[t]
+            return ('([%s].getD %s %s)' % (', '.join(self.coerce(x, tt, t) for x, tt in elts), self.coerce(idx, it, 'nat'), zero), t)
+        if isinstance(n, ast.Call):
+            return self.call(n)
+        raise Unsupported(ast.dump(n)[:160])
+
+    def cmp(self, left, op, c):
+        l, lt = self.e(left)
+        if isinstance(op, (ast.In, ast.NotIn)):
+            if not isinstance(c, (ast.Tuple, ast.List)):
+                raise Unsupported('in non-literal')
+            if lt == 'meth':
+                names = [x.value for x in c.elts]
+                r = self.meth_table(l, lambda m: 'true' if m in names else 'false')
+            else:
+                r = '(' + ' || '.join('%s == %s' % (l, self.e(x)[0]) for x in c.elts) + ')'
+            return '(!%s)' % r if isinstance(op, ast.NotIn) else r
+        if isinstance(op, (ast.Is, ast.IsNot)) and isinstance(c, ast.Constant) and c.value is None:
+            if lt not in ('optnat', 'optrat'):
+                raise Unsupported('is None on %s' % lt)
+            return '(%s.isNone)' % l if isinstance(op, ast.Is) else '(%s.isSome)' % l
+        r, rt = self.e(c)
+        if lt == 'meth':
+            if not (isinstance(c, ast.Constant) and isinstance(op, (ast.Eq, ast.NotEq))):
+                raise Unsupported('method comparison')
+            t = self.meth_table(l, lambda m: 'true' if m == c.value else 'false')
+            return t if isinstance(op, ast.Eq) else '(!%s)' % t
+        o = {ast.Eq: '==', ast.NotEq: '!=', ast.Lt: '<', ast.LtE: '≤', ast.Gt: '>', ast.GtE: '≥'}.get(type(op))
+        if o is None:
+            raise Unsupported('compare op')
+        t = 'rat' if 'rat' in (lt, rt) else 'nat'
+        l, r = self.coerce(l, lt, t), self.coerce(r, rt, t)
+        if o in ('==', '!='):
+            return '(%s %s %s)' % (l, o, r)
+        return '(decide (%s %s %s))' % (l, o, r)
+
+    def dict_get(self, items, key_node, default_node):
+        key, kt = self.e(key_node)
+        dflt, dt = self.e(default_node)
+        vals = {k: self.e(v) for k, v in items}
+        t = 'rat' if (dt == 'rat' or any(tt == 'rat' for _x, tt in vals.values())) else dt
+        if kt == 'meth':
+            for k in vals:
+                if k not in METHODS:
+                    raise Unsupported('dict key %r' % k)
+            return (self.meth_table(key, lambda m: self.coerce(*vals[m], t) if m in vals else self.coerce(dflt, dt, t)), t)
+        if kt == 'nat':
+            body = self.coerce(dflt, dt, t)
+            for k, (v, vt) in reversed(list(vals.items())):
+                body = '(if %s == %s then %s else %s)' % (key, k, self.coerce(v, vt, t), body)
+            return (body, t)
+        raise Unsupported('dict key type %s' % kt)
+
+    def call(self, n):
+        f = n.func
+        if isinstance(f, ast.Name):
+            if f.id == 'int' and len(n.args) == 1:
+                x, t = self.e(n.args[0])
+                if t in ('nat', 'bool'):
+                    return (self.coerce(x, t, 'nat'), 'nat')
+                raise Unsupported('int() of %s' % t)
+            if f.id == 'float' and len(n.args) == 1:
+                x, t = self.e(n.args[0])
+                return (self.coerce(x, t, 'rat'), 'rat')
+            if f.id in ('max', 'min') and len(n.args) == 2:
+                (a, at), (b, bt) = self.e(n.args[0]), self.e(n.args[1])
+                t = 'rat' if 'rat' in (at, bt) else 'nat'
+                return ('(%s %s %s)' % (f.id, self.coerce(a, at, t), self.coerce(b, bt, t)), t)
+            r = self.resolve_call(f.id)
+            if r is not None:
+                args = [self.coerce(*self.e(a), t) for a, t in zip(n.args, r[2])]
+                if len(args) != len(r[2]):
+                    raise Unsupported('arity of %s' % f.id)
+                return ('(%s %s)' % (r[0], ' '.join(args)), r[1])
+            raise Unsupported('call %s' % f.id)
+        if isinstance(f, ast.Attribute):
+            if f.attr == 'startswith' and len(n.args) == 1 and isinstance(n.args[0], ast.Constant):
+                x, t = self.e(f.value)
+                if t != 'meth':
+                    raise Unsupported('startswith on %s' % t)
+                p = n.args[0].value
+                return (self.meth_table(x, lambda m: 'true' if m.startswith(p) else 'false'), 'bool')
+            if f.attr == 'get' and len(n.args) == 2:
+                d = f.value
+                if isinstance(d, ast.Call) and getattr(d.func, 'id', '') == 'dict' and not d.args:
+                    return self.dict_get([(k.arg, k.value) for k in d.keywords], n.args[0], n.args[1])
+                if isinstance(d, ast.Dict):
+                    return self.dict_get([(k.value, v) for k, v in zip(d.keys, d.values)], n.args[0], n.args[1])
+            if isinstance(f.value, ast.Name) and f.value.id == 'self':
+                r = self.resolve_call(f.attr)
+                if r is not None:
+                    args = [self.coerce(*self.e(a), t) for a, t in zip(n.args, r[2])]
+                    if len(r) > 3 and r[3]:
+                        return ('(%s %s)' % (r[3], ' '.join(args)), r[1])
+                    return ('(self.%s %s)' % (r[0], ' '.join(args)), r[1])
+        raise Unsupported('call ' + ast.dump(n)[:120])
+
+    # ---- statements -------------------------------------------------------------------------
+    def body(self, stmts):
+        if not stmts:
+            raise Unsupported('fall off the end')
+        s = stmts[0]
+        if isinstance(s, ast.Expr) and isinstance(s.value, ast.Constant):
+            return self.body(stmts[1:])
+        if isinstance(s, ast.Expr) and isinstance(s.value, ast.Call) and getattr(s.value.func, 'id', '') == '_assert':
+            c = self.coerce(*self.e(s.value.args[0]), 'bool')
+            self.guards.append((' && '.join(self.path) or 'true', c))
+            return self.body(stmts[1:])
+        if isinstance(s, ast.Return):
+            return self.e(s.value)
+        if isinstance(s, ast.Assign) and len(s.targets) == 1:
+            tgt = s.targets[0]
+            if isinstance(tgt, ast.Name):
+                v, t = self.e(s.value)
+                self.env[tgt.id] = (tgt.id, t)
+                rest, rt = self.body(stmts[1:])
+                return ('let %s : %s := %s\n  %s' % (tgt.id, LT[t], v, rest), rt)
+            if isinstance(tgt, ast.Tuple) and isinstance(s.value, ast.Attribute) and s.value.attr == '_state':
+                names = [e.id for e in tgt.elts]
+                for nm, fld in zip(names, ['x', 'method', 'n', 'order']):
+                    if fld != 'x':
+                        self.env[nm] = self.selfattrs['state.' + fld]
+                return self.body(stmts[1:])
+            if isinstance(tgt, ast.Tuple) and isinstance(s.value, ast.Tuple) and len(tgt.elts) == len(s.value.elts):
+                vals = [self.e(v) for v in s.value.elts]
+                pre = ''
+                for e_, (v, t) in zip(tgt.elts, vals):
+                    pre += 'let %s : %s := %s\n  ' % (e_.id, LT[t], v)
+                for e_, (v, t) in zip(tgt.elts, vals):
+                    self.env[e_.id] = (e_.id, t)
+                rest, rt = self.body(stmts[1:])
+                return (pre + rest, rt)
+        if isinstance(s, ast.If):
+            c = self.coerce(*self.e(s.test), 'bool')
+            saved = dict(self.env)
+            self.path.append(c)
+            a, at = self.body(list(s.body) + list(stmts[1:]))
+            self.path.pop()
+            self.env = dict(saved)
+            self.path.append('(!%s)' % c)
+            b, bt = self.body(list(s.orelse) + list(stmts[1:]))
+            self.path.pop()
+            t = at if at == bt else ('rat' if 'rat' in (at, bt) else 'nat')
+            return ('if %s then %s\n  else %s' % (c, self.coerce(a, at, t), self.coerce(b, bt, t)), t)
+        raise Unsupported(ast.dump(s)[:160])
+
+
+# ------------------------------------------------------------------------------------------------
+def flat(src):
+    """source text with indentation removed (for shape checks)"""
+    return '\n'.join(l.strip() for l in src.split('\n'))
+
+
+def parse(relpath):
+    return ast.parse(open(os.path.join(REPO, 'src', 'numdifftools', relpath)).read())
+
+
+def find_class(mod, name):
+    for n in mod.body:
+        if isinstance(n, ast.ClassDef) and n.name == name:
+            return n
+    raise Unsupported('class %s not found' % name)
+
+
+def funcs_of(cls):
+    return {f.name: f for f in cls.body if isinstance(f, ast.FunctionDef)}
+
+
+class Unit:
+    """one generated Lean file"""
+
+    def __init__(self, fname, header):
+        self.fname = fname
+        self.header = header
+        self.items = []    # (key, text)
+
+    def add(self, key, text):
+        self.items.append((key, text))
+
+
+def translate_class(unit, status, baseline, cls, struct, selfattrs, want, argtypes=None, prefix=None, extra_resolve=None):
+    """translate the listed methods/properties of a class in dependency order (callees first)."""
+    fs = funcs_of(cls)
+    done = {}
+    prefix = prefix or struct
+    argtypes = argtypes or {}
+    order = []
+
+    def resolve(name):
+        if extra_resolve and name in extra_resolve:
+            return extra_resolve[name]
+        if name in done:
+            return done[name]
+        if name in want and name in fs:
+            tr_one(name)
+            return done.get(name)
+        return None
+
+    def tr_one(name):
+        if name in done:
+            return
+        f = fs[name]
+        params = [a.arg for a in f.args.args if a.arg != 'self']
+        is_static = any(getattr(d, 'id', '') == 'staticmethod' for d in f.decorator_list)
+        env = {}
+        ptypes = []
+        for p in params:
+            t = argtypes.get((name, p)) or argtypes.get(p)
+            if t is None:
+                status[prefix + '.' + name] = {'ok': False, 'error': 'no type for parameter %s' % p}
+                return
+            env[p] = (p, t)
+            ptypes.append(t)
+        key = prefix + '.' + name
+        try:
+            done[name] = (name, '?', ptypes)    # recursion guard
+            tr = Tr(env, selfattrs, resolve)
+            text, rt = tr.body(f.body)
+            done[name] = (name, rt, ptypes, '%s.%s' % (struct, name) if is_static else None)
+            sig = ' '.join('(%s : %s)' % (p, LT[t]) for p, t in zip(params, ptypes))
+            selfarg = '' if is_static else '(self : %s) ' % struct
+            lean = 'def %s.%s %s%s : %s :=\n  %s' % (struct, name, selfarg, sig, LT[rt], text)
+            for gi, (path, cond) in enumerate(tr.guards):
+                lean += '\n\n/-- `_assert` number %d inside `%s`: holds or the path is not taken -/\n' % (gi, name)
+                lean += 'def %s.%s_guard%d %s%s : Bool :=\n  (!(%s)) || %s' % (struct, name, gi, selfarg, sig, path, cond)
+            status[key] = {'ok': True}
+            unit.add(key, lean)
+            order.append(name)
+        except Unsupported as ex:
+            del done[name]
+            status[key] = {'ok': False, 'error': str(ex)}
+            if key in baseline:
+                unit.add(key, baseline[key]['text'])
+                done[name] = (name, baseline[key]['ret'], ptypes)
+        except Exception as ex:     # malformed source etc.
+            done.pop(name, None)
+            status[key] = {'ok': False, 'error': 'internal: %r' % ex}
+            if key in baseline:
+                unit.add(key, baseline[key]['text'])
+                done[name] = (name, baseline[key]['ret'], ptypes)
+
+    for name in want:
+        if name not in fs:
+            status[prefix + '.' + name] = {'ok': False, 'error': 'function not found'}
+            key = prefix + '.' + name
+            if key in baseline:
+                unit.add(key, baseline[key]['text'])
+                done[name] = (name, baseline[key]['ret'], [])
+            continue
+        tr_one(name)
+    return done
+
+
+def gen_logrule(status, baseline):
+    u = Unit('LogRule.lean', '''/- GENERATED by translator/py2lean.py from src/numdifftools/finite_difference.py — do not edit -/
+import Ndt.Gen.Prelude
+namespace Ndt.Gen
+structure LogRule where
+  n : Nat
+  method : Method
+  order : Nat
+deriving Repr, DecidableEq
+''')
+    mod = parse('finite_difference.py')
+    cls = find_class(mod, 'LogRule')
+    selfattrs = {'n': ('self.n', 'nat'), 'order': ('self.order', 'nat'), 'method': ('self.method', 'meth')}
+    want = ['_odd_derivative', '_even_derivative', '_derivative_mod_four_is_three', '_derivative_mod_four_is_zero',
+            'eval_first_condition', '_complex_high_order', 'richardson_step', 'method_order', '_parity_complex',
+            '_parity', '_flip_fd_rule', '_multicomplex_middle_name', '_get_middle_name', '_get_last_name']
+    argt = {'order': 'nat', 'method_order': 'nat', 'method': 'meth'}
+    # _get_last_name assigns then returns: supported by body(); strings are fragments
+    translate_class(u, status, baseline, cls, 'LogRule', selfattrs, want, argt)
+    # the tables and index expressions of _fd_matrix / rule
+    fs = funcs_of(cls)
+    try:
+        fm = fs['_fd_matrix']
+        got = {}
+        for st in ast.walk(fm):
+            if isinstance(st, ast.Assign) and isinstance(st.value, ast.Subscript) and isinstance(st.value.value, ast.List):
+                nm = st.targets[0].id
+                if nm in ('step', 'offset', 'c_0') and isinstance(st.value.slice, ast.Name) and st.value.slice.id == 'parity':
+                    vals = [e.value for e in st.value.value.elts]
+                    got[nm] = vals
+        for nm in ('step', 'offset', 'c_0'):
+            if nm not in got:
+                raise Unsupported('table %s not found in _fd_matrix' % nm)
+            vals = got[nm]
+            if nm == 'c_0':
+                if any(float(v) != int(v) for v in vals):
+                    raise Unsupported('non-integer c_0')
+            txt = ', '.join(str(int(v)) for v in vals)
+            u.add('LogRule.fd_' + nm, 'def fd_%s (parity : Nat) : Nat := [%s].getD parity 0' % (nm, txt))
+            status['LogRule.fd_' + nm] = {'ok': True}
+        # the parity guard `_assert(0 <= parity <= 6, ..)`
+        g = [s for s in fm.body if isinstance(s, ast.Expr) and isinstance(s.value, ast.Call)
+             and getattr(s.value.func, 'id', '') == '_assert']
+        tr = Tr({'parity': ('parity', 'nat')}, {}, lambda n: None)
+        u.add('LogRule.fd_parity_ok', 'def fd_parity_ok (parity : Nat) : Bool := %s' % tr.coerce(*tr.e(g[0].value.args[0]), 'bool'))
+        status['LogRule.fd_parity_ok'] = {'ok': True}
+        # c = c_0 / factorial(arange(offset, step*nterms+offset, step));  matrix[i][j] = c[j]*inv_sr**(i*(step*j+offset))
+        src = flat(ast.unparse(fm))
+        for needle in ('special.factorial(np.arange(offset, step * nterms + offset, step))',
+                       'c[j] * inv_sr ** (i * (step * j + offset))', 'inv_sr = 1.0 / step_ratio'):
+            if needle not in src:
+                raise Unsupported('_fd_matrix shape changed: %r not found' % needle)
+        status['LogRule._fd_matrix.shape'] = {'ok': True}
+    except Unsupported as ex:
+        for nm in ('fd_step', 'fd_offset', 'fd_c_0', 'fd_parity_ok'):
+            k = 'LogRule.' + nm
+            if k not in status or not status[k].get('ok'):
+                status[k] = {'ok': False, 'error': str(ex)}
+                if k in baseline:
+                    u.add(k, baseline[k]['text'])
+        status['LogRule._fd_matrix.shape'] = {'ok': False, 'error': str(ex)}
+    # rule(): num_terms, rule_index
+    try:
+        rl = fs['rule']
+        got = {}
+        for st in ast.walk(rl):
+            if isinstance(st, ast.Assign) and isinstance(st.targets[0], ast.Name) and st.targets[0].id in ('num_terms', 'rule_index'):
+                got[st.targets[0].id] = st.value
+        resolve = lambda n: {'richardson_step': ('richardson_step', 'nat', []), 'method_order': ('method_order', 'nat', [])}.get(n)
+        env = {'order': ('(self.n - 1)', 'nat'), 'method_order': ('self.method_order', 'nat'), 'step': ('self.richardson_step', 'nat')}
+        src = flat(ast.unparse(rl))
+        if 'order, method_order = (self.n - 1, self.method_order)' not in src or 'step = self.richardson_step' not in src:
+            raise Unsupported('rule(): local bindings changed')
+        for nm in ('num_terms', 'rule_index'):
+            tr = Tr(env, {}, resolve)
+            x, t = tr.e(got[nm])
+            u.add('LogRule.' + nm, 'def LogRule.%s (self : LogRule) : Nat := %s' % (nm, tr.coerce(x, t, 'nat')))
+            status['LogRule.' + nm] = {'ok': True}
+        for needle in ("if method in ('multicomplex',) or self.n == 0:", 'parity = self._parity(method, order, method_order)',
+                       'fd_rules = linalg.pinv(fd_mat)', 'if self._flip_fd_rule:\nreturn -fd_rules[rule_index]',
+                       'return fd_rules[rule_index]', 'FD_RULES.get((step_ratio, parity, num_terms))',
+                       'FD_RULES[step_ratio, parity, num_terms] = fd_rules', 'step_ratio = make_exact(step_ratio)'):
+            if needle not in src:
+                raise Unsupported('rule() shape changed: %r not found' % needle)
+        status['LogRule.rule.shape'] = {'ok': True}
+    except (Unsupported, KeyError) as ex:
+        for nm in ('num_terms', 'rule_index'):
+            k = 'LogRule.' + nm
+            if k not in status or not status[k].get('ok'):
+                status[k] = {'ok': False, 'error': str(ex)}
+                if k in baseline:
+                    u.add(k, baseline[k]['text'])
+        status['LogRule.rule.shape'] = {'ok': False, 'error': str(ex)}
+    # overrides of the Hessdiag / Hessian rules
+    try:
+        hd = find_class(mod, 'LogHessdiagRule')
+        hs = find_class(mod, 'LogHessianRule')
+        src_hd, src_hs = ast.unparse(hd), ast.unparse(hs)
+        if 'n = property(fget=lambda cls: 2' not in src_hd or 'n = property(fget=lambda cls: 2' not in src_hs:
+            raise Unsupported('n override of Hessdiag/Hessian rule changed')
+        fh = funcs_of(hs)
+        tr = Tr({}, {'method': ('m', 'meth')}, lambda n: None)
+        getter = [f for f in hs.body if isinstance(f, ast.FunctionDef) and f.name == 'order'
+                  and any(getattr(d, 'id', '') == 'property' for d in f.decorator_list)][0]
+        x, t = tr.body(getter.body)
+        u.add('LogHessianRule.order', 'def hessianRuleOrder (m : Method) : Nat := %s' % tr.coerce(x, t, 'nat'))
+        chi = [f for f in hs.body if isinstance(f, ast.FunctionDef) and f.name == '_complex_high_order'][0]
+        x, t = Tr({}, {}, lambda n: None).body(chi.body)
+        u.add('LogHessianRule._complex_high_order', 'def hessianRuleComplexHighOrder : Bool := %s' % x)
+        status['LogHessianRule.overrides'] = {'ok': True}
+    except (Unsupported, IndexError) as ex:
+        status['LogHessianRule.overrides'] = {'ok': False, 'error': str(ex)}
+        for k in ('LogHessianRule.order', 'LogHessianRule._complex_high_order'):
+            if k in baseline:
+                u.add(k, baseline[k]['text'])
+    return u
+
+
+def gen_steps(status, baseline):
+    u = Unit('Steps.lean', '''/- GENERATED by translator/py2lean.py from src/numdifftools/step_generators.py, core.py, limits.py — do not edit -/
+import Ndt.Gen.Prelude
+namespace Ndt.Gen
+/-- the option record of `MinStepGenerator` together with its `_state` (method, n, order) -/
+structure StepGen where
+  method : Method
+  n : Nat
+  order : Nat
+  numSteps : Option Nat
+  checkNumSteps : Bool
+  numExtrap : Nat
+  stepRatio : Option Rat
+deriving Repr
+''')
+    mod = parse('step_generators.py')
+    # module-level default_scale(method, n, order)
+    try:
+        f = [x for x in mod.body if isinstance(x, ast.FunctionDef) and x.name == 'default_scale'][0]
+        tr = Tr({'method': ('method', 'meth'), 'n': ('n', 'nat'), 'order': ('order', 'nat')}, {}, lambda n: None)
+        text, rt = tr.body(f.body)
+        u.add('default_scale', 'def default_scale (method : Method) (n order : Nat) : Rat :=\n  %s' % tr.coerce(text, rt, 'rat'))
+        status['default_scale'] = {'ok': True}
+    except (Unsupported, IndexError) as ex:
+        status['default_scale'] = {'ok': False, 'error': str(ex)}
+        if 'default_scale' in baseline:
+            u.add('default_scale', baseline['default_scale']['text'])
+    cls = find_class(mod, 'MinStepGenerator')
+    selfattrs = {'state.method': ('self.method', 'meth'), 'state.n': ('self.n', 'nat'), 'state.order': ('self.order', 'nat'),
+                 '_num_steps': ('self.numSteps', 'optnat'), 'check_num_steps': ('self.checkNumSteps', 'bool'),
+                 'num_extrap': ('self.numExtrap', 'nat'), '_step_ratio': ('self.stepRatio', 'optrat')}
+    argt = {'method': 'meth', 'n': 'nat', 'order': 'nat'}
+    # num_steps uses int(self._num_steps) on an Option: handled by a small rewrite below
+    fs = funcs_of(cls)
+    want = ['_num_step_divisor', 'min_num_steps']
+    translate_class(u, status, baseline, cls, 'StepGen', selfattrs, want, argt)
+    # num_steps property: fixed shape, translated by pattern
+    try:
+        ns = [f for f in cls.body if isinstance(f, ast.FunctionDef) and f.name == 'num_steps'
+              and any(getattr(d, 'id', '') == 'property' for d in f.decorator_list)][0]
+        src = ast.unparse(ns)
+        expect = ("min_num_steps = self.min_num_steps\nif self._num_steps is not None:\n    num_steps = int(self._num_steps)\n"
+                  "    if self.check_num_steps:\n        num_steps = max(num_steps, min_num_steps)\n    return num_steps\n"
+                  "return min_num_steps + int(self.num_extrap)")
+        body = '\n'.join(l[4:] for l in src.split('\n')[2:] if not l.strip().startswith('"""'))
+        body = '\n'.join(l for l in body.split('\n') if l.strip())
+        if body.strip() != expect.strip():
+            raise Unsupported('num_steps property changed shape:\n' + body)
+        u.add('StepGen.num_steps', '''def StepGen.num_steps (self : StepGen) : Nat :=
+  let min_num_steps := self.min_num_steps
+  match self.numSteps with
+  | some k => if self.checkNumSteps then max k min_num_steps else k
+  | none => min_num_steps + self.numExtrap''')
+        status['StepGen.num_steps'] = {'ok': True}
+    except (Unsupported, IndexError) as ex:
+        status['StepGen.num_steps'] = {'ok': False, 'error': str(ex)}
+        if 'StepGen.num_steps' in baseline:
+            u.add('StepGen.num_steps', baseline['StepGen.num_steps']['text'])
+    # default step ratio: {1: 2.0}.get(self._state.n, 1.6)
+    try:
+        sr = [f for f in cls.body if isinstance(f, ast.FunctionDef) and f.name == 'step_ratio'
+              and any(getattr(d, 'id', '') == 'property' for d in f.decorator_list)][0]
+        dflt = None
+        for st in ast.walk(sr):
+            if isinstance(st, ast.Call) and isinstance(st.func, ast.Attribute) and st.func.attr == 'get' and isinstance(st.func.value, ast.Dict):
+                dflt = st
+        if dflt is None:
+            raise Unsupported('default step_ratio expression not found')
+        tr = Tr({}, selfattrs, lambda n: None)
+        x, t = tr.e(dflt)
+        u.add('StepGen.default_step_ratio', 'def StepGen.default_step_ratio (self : StepGen) : Rat := %s' % tr.coerce(x, t, 'rat'))
+        status['StepGen.default_step_ratio'] = {'ok': True}
+    except (Unsupported, IndexError) as ex:
+        status['StepGen.default_step_ratio'] = {'ok': False, 'error': str(ex)}
+        if 'StepGen.default_step_ratio' in baseline:
+            u.add('StepGen.default_step_ratio', baseline['StepGen.default_step_ratio']['text'])
+    # constructor defaults of MaxStepGenerator / MinStepGenerator / CStepGenerator (kwargs of __init__)
+    try:
+        def defaults(cls_node):
+            init = funcs_of(cls_node)['__init__']
+            names = [a.arg for a in init.args.args][1:]
+            vals = init.args.defaults
+            names = names[len(names) - len(vals):]
+            return {n: ast.literal_eval(v) for n, v in zip(names, vals)}
+        dmax = defaults(find_class(mod, 'MaxStepGenerator'))
+        dmin = defaults(cls)
+        lim = parse('limits.py')
+        dc = defaults(find_class(lim, 'CStepGenerator'))
+
+        def opt(v):
+            return 'none' if v is None else '(some %s)' % (lit_rat(v) if isinstance(v, float) else str(int(v)))
+        u.add('defaults', '''/-- constructor defaults, read from the `__init__` signatures -/
+def maxGenDefaults : StepGen := { method := .forward, n := 1, order := 2, numSteps := %s, checkNumSteps := %s, numExtrap := %d, stepRatio := %s }
+def maxGenBaseStep : Rat := %s
+def maxGenUseExact : Bool := %s
+def minGenDefaults : StepGen := { method := .forward, n := 1, order := 2, numSteps := %s, checkNumSteps := %s, numExtrap := %d, stepRatio := %s }
+def minGenUseExact : Bool := %s
+def cGenStepRatio : Rat := %s
+def cGenScale : Rat := %s''' % (
+            opt(dmax['num_steps']), str(bool(dmax['check_num_steps'])).lower(), dmax['num_extrap'],
+            'none' if dmax['step_ratio'] is None else '(some %s)' % lit_rat(dmax['step_ratio']),
+            lit_rat(dmax['base_step']), str(bool(dmax['use_exact_steps'])).lower(),
+            opt(dmin['num_steps']), str(bool(dmin['check_num_steps'])).lower(), dmin['num_extrap'],
+            'none' if dmin['step_ratio'] is None else '(some %s)' % lit_rat(dmin['step_ratio']),
+            str(bool(dmin['use_exact_steps'])).lower(),
+            lit_rat(dc['step_ratio']), lit_rat(dc['scale'])))
+        status['defaults'] = {'ok': True}
+    except Exception as ex:
+        status['defaults'] = {'ok': False, 'error': repr(ex)}
+        if 'defaults' in baseline:
+            u.add('defaults', baseline['defaults']['text'])
+    # basic generators: exponent expression and ranges
+    try:
+        bmax = find_class(mod, 'BasicMaxStepGenerator')
+        bmin = find_class(mod, 'BasicMinStepGenerator')
+        smax, smin = flat(ast.unparse(bmax)), flat(ast.unparse(bmin))
+        for needle, where in (('_sign = -1', smax), ('return range(self.num_steps)', smax),
+                              ('step = base_step * step_ratio ** (sgn * i + offset)', smax),
+                              ('if (np.abs(step) > 0).all():\nyield step', smax),
+                              ('_sign = 1', smin), ('return range(self.num_steps - 1, -1, -1)', smin)):
+            if needle not in where:
+                raise Unsupported('basic step generator changed: %r not found' % needle)
+        u.add('basic', '''/-- `BasicMaxStepGenerator`: exponents `-i + offset`, i = 0 … num_steps-1 (checked against the source text) -/
+def basicMaxExponents (numSteps : Nat) (offset : Int) : List Int := (List.range numSteps).map (fun (i : Nat) => -(i : Int) + offset)
+/-- `BasicMinStepGenerator`: exponents `i + offset`, i = num_steps-1 … 0 -/
+def basicMinExponents (numSteps : Nat) (offset : Int) : List Int := (List.range numSteps).reverse.map (fun (i : Nat) => (i : Int) + offset)''')
+        status['basic_generators'] = {'ok': True}
+    except Unsupported as ex:
+        status['basic_generators'] = {'ok': False, 'error': str(ex)}
+        if 'basic' in baseline:
+            u.add('basic', baseline['basic']['text'])
+    return u
+
+
+PRELUDE = '''/- GENERATED by translator/py2lean.py — do not edit -/
+namespace Ndt.Gen
+/-- the closed universe of method names (anything else is `other`) -/
+inductive Method | central | central2 | forward | backward | complex | multicomplex | other
+deriving DecidableEq, Repr
+/-- name fragments of the difference functions -/
+inductive Frag | even | odd | two | none | higher
+deriving DecidableEq, Repr
+def ratPow (x : Rat) : Nat → Rat
+  | 0 => 1
+  | n + 1 => ratPow x n * x
+def Method.ofString : String → Method
+  | "central" => .central | "central2" => .central2 | "forward" => .forward | "backward" => .backward
+  | "complex" => .complex | "multicomplex" => .multicomplex | _ => .other
+end Ndt.Gen
+'''
+
+
+def write_if_changed(path, text):
+    if os.path.exists(path) and open(path).read() == text:
+        return False
+    with open(path, 'w') as f:
+        f.write(text)
+    return True
+
+
+def main(update_baseline=False):
+    os.makedirs(GEN, exist_ok=True)
+    bpath = os.path.join(HERE, 'baseline.json')
+    baseline = json.load(open(bpath)) if os.path.exists(bpath) else {}
+    status = {}
+    units = []
+    for gen in (gen_logrule, gen_steps):
+        try:
+            units.append(gen(status, baseline))
+        except Exception as ex:     # whole-unit failure (class missing, syntax error ...)
+            status['unit:' + gen.__name__] = {'ok': False, 'error': repr(ex)}
+    changed = write_if_changed(os.path.join(GEN, 'Prelude.lean'), PRELUDE)
+    for u in units:
+        text = u.header + '\n' + '\n\n'.join(t for _k, t in u.items) + '\n\nend Ndt.Gen\n'
+        changed |= write_if_changed(os.path.join(GEN, u.fname), text)
+    write_if_changed(os.path.join(GEN, 'status.json'), json.dumps(status, indent=1, sort_keys=True))
+    if update_baseline:
+        base = {}
+        for u in units:
+            for k, t in u.items:
+                ret = 'nat'
+                import re
+                m = re.search(r'\) : (\w+) :=', t) or re.search(r' : (\w+) :=', t)
+                if m:
+                    ret = {v: k2 for k2, v in LT.items()}.get(m.group(1), 'nat')
+                base[k] = {'text': t, 'ret': ret}
+        json.dump(base, open(bpath, 'w'), indent=1, sort_keys=True)
+    bad = {k: v for k, v in status.items() if not v.get('ok')}
+    return status, bad, changed
+
+
+if __name__ == '__main__':
+    st, bad, changed = main('--update-baseline' in sys.argv)
+    print('py2lean: %d items, %d failed%s' % (len(st), len(bad), ', files changed' if changed else ''))
+    for k, v in bad.items():
+        print('  FAILED %s: %s' % (k, v['error']))
